@@ -40,7 +40,7 @@ C04_ALPHABET = [
 
 class RaggedHistory(Engine):
     prop = 'C04'
-    oracles = ('model', 'fresh', 'indextype', 'outcome')
+    oracles = ('model', 'fresh', 'indextype', 'outcome', 'attrs')
     weights = dict(append=22, iterappend=12, truncate=14, mode=4, reopen=10, append_bad=6,
                    truncate_bad=5, getbad=4, iter=8, meta=0, iterappend_fail=4)
     quick_runs = 3000
@@ -719,8 +719,11 @@ class _RState:
     def do_meta(self, op):
         pre = snapshot(self.path)
         out, problem = M.apply_meta_op(op, self.h.metadata, self.meta)
-        if problem and self.has('meta'):
+        if problem and (self.has('meta') or (self.has('outcome') and 'raises' in problem[1])):
             raise Viol(*problem)
+        if problem:
+            # exception classes and refusals of metadata calls are C13's clauses; the model cannot follow
+            raise Diverged(f'{problem[0]}:{problem[1]}')
         if out in ('rejected', 'keyerror', 'default'):
             d = M.state_diff(pre, snapshot(self.path))
             if d and self.has('meta'):
@@ -869,16 +872,17 @@ class _RState:
     def observe(self, h, who):
         L = self.L
         n = len(L)
+        attrs = self.has('attrs')      # narrays/atom/size and the IndexError clause are C04's; elsewhere only the subarrays
         try:
-            obs = (len(h), h.narrays, tuple(h.atom), D.dtstr(h.dtype), h.size)
+            obs = (len(h), h.narrays, tuple(h.atom), D.dtstr(h.dtype), h.size) if attrs else (len(h),)
         except Exception as e:
             raise Viol(f'{who}.attrs', f'raises:{type(e).__name__}', str(e)[:300])
-        exp = (n, n, self.atom, D.dtstr(self.dtype), self.nvalues() * int(np.prod(self.atom, dtype=np.int64)))
+        exp = (n, n, self.atom, D.dtstr(self.dtype), self.nvalues() * int(np.prod(self.atom, dtype=np.int64))) if attrs else (n,)
         if obs != exp:
             names = ('len', 'narrays', 'atom', 'dtype', 'size')
             bad = [nm for nm, a, b in zip(names, obs, exp) if a != b]
             raise Viol(f'{who}.attrs', 'mismatch:' + ','.join(bad), f'{obs} != {exp}')
-        for k in range(-n - 1, n + 1):
+        for k in (range(-n - 1, n + 1) if attrs else range(-n, n)):
             valid = -n <= k < n
             kk = k if (k % 3) else np.int64(k)      # Python and NumPy integers
             try:
@@ -954,6 +958,18 @@ class _RState:
             if nt != self.indextype:
                 raise Viol('indextype', 'not_the_requested_one', f'{nt} != {self.indextype}')
         self.disk_oracles()
+        if self.has('metacontent'):
+            # "with identical metadata" (C15): the content only, through the live and a fresh handle
+            r = M.check_meta(self.h.metadata, self.meta, os.path.join(self.path, 'metadata.json'), 'live', content_only=True)
+            if r:
+                raise Viol(*r)
+            try:
+                fm = self.darr.RaggedArray(self.path).metadata
+            except Exception as e:
+                raise Viol('fresh.open', f'raises:{type(e).__name__}', str(e)[:300])
+            r = M.check_meta(fm, self.meta, os.path.join(self.path, 'metadata.json'), 'fresh', content_only=True)
+            if r:
+                raise Viol(*r)
         if self.has('meta'):
             mp = os.path.join(self.path, 'metadata.json')
             r = M.check_meta(self.h.metadata, self.meta, mp, 'live')
